@@ -23,6 +23,7 @@ PostMatches == /\ \A p \in Prims : ver'[p] = Ev.ver[p]
                /\ \A p \in Prims : npaths'[p] = Ev.npaths[p]
                /\ cver'[Ev.d] = Ev.cv
                /\ lver'[Ev.d] = Ev.lv
+               /\ kver'[Ev.d] = Ev.kv /\ uver'[UL[Ev.d]] = Ev.uv
                /\ \A h \in Hedgers : pver'[h] = Ev.pvs[h]
 Step(A) == l <= Len(Tr) /\ A /\ PostMatches /\ l' = l + 1 /\ tid' = tid
 
@@ -33,6 +34,8 @@ TNext ==
   \/ Step(Ev.op \in {"ComputeLoss", "Price"} /\ SimCompute(Ev.op, Ev.h, Ev.d, Ev.n, Ev.ver[UL[Ev.d]]))
   \/ Step(Ev.op = "AddClause" /\ AddClause(Ev.d))
   \/ Step(Ev.op = "Relist" /\ Relist(Ev.d))
+  \/ Step(Ev.op = "Restrike" /\ Restrike(Ev.d))
+  \/ Step(Ev.op = "SetCost" /\ SetCost(Ev.d))
   \/ Step(Ev.op = "Fit" /\ Fit(Ev.h, Ev.d, Ev.n, Ev.ver[UL[Ev.d]], Ev.pvs[Ev.h]))
 TSpec == TInit /\ [][TNext]_tvars
 
